@@ -200,3 +200,88 @@ Fixpoint run_epochs (o : KeyOrder) (diag : bool) (keys : list pkey) (st : kstate
       end
   end.
 End Kernel.
+
+(* ---------- kernel sequence and engine: which history reaches which kernel ---------------------
+   KernelSequence.tune hands the SAME history object to every kernel in turn; Engine._tune_kernels
+   fetches it once per adaptation epoch: the chain recorded for the CURRENT epoch (the last chain of
+   the EpochChainManager, whatever the configs of earlier epochs were) if any kernel of the sequence
+   has needs_history, else None.  Kernels without history-based tuning (RW, Gibbs, IWLS, MH:
+   needs_history = False) are [KOther]; their state carries no mass matrix and is passed through. *)
+Inductive kern := KMM (diag : bool) (keys : list pkey) | KOther.
+
+Definition needs_history (k : kern) : bool :=
+  match k with KMM _ _ => true | KOther => false end.
+
+Inductive etype := EFast | ESlow | EBurnin | EPosterior.
+Definition is_adaptation (t : etype) : bool := match t with EFast | ESlow => true | _ => false end.
+Definition is_slow (t : etype) : bool := match t with ESlow => true | _ => false end.
+
+(* EpochConfig (type, duration, thinning): a dataclass compared by value; two epochs of a schedule
+   may have equal configs *)
+Record econf := mkE { e_type : etype; e_duration : nat; e_thinning : nat }.
+
+(* EpochChainManager: one recorded chain per epoch, in the order of the epochs *)
+Definition chainstore := list (econf * history).
+
+Fixpoint last_opt {A} (l : list A) : option A :=
+  match l with
+  | [] => None
+  | [x] => Some x
+  | _ :: r => last_opt r
+  end.
+
+(* get_current_chain: self._chains[-1] *)
+Definition current_chain (store : chainstore) : option history := option_map snd (last_opt store).
+
+(* the part of a recorded chain that belongs to the given keys *)
+Definition restrict (keys : list pkey) (h : history) : history :=
+  filter (fun e => existsb (fun k => String.eqb (fst e) (fst k)) keys) h.
+
+Section Sequence.
+Variable sqrt_o : Q -> Q.
+
+Definition kernel_tune (o : KeyOrder) (slow : bool) (h : option history) (p : kern * kstate)
+  : option (kern * kstate) :=
+  match fst p with
+  | KMM diag keys => option_map (pair (fst p)) (tune sqrt_o o diag keys slow (snd p) h)
+  | KOther => Some p
+  end.
+
+(* KernelSequence.tune *)
+Definition seq_tune (o : KeyOrder) (slow : bool) (h : option history) (ks : list (kern * kstate))
+  : option (list (kern * kstate)) := mapM (kernel_tune o slow h) ks.
+
+(* Engine._tune_kernels at the end of epoch [e] *)
+Definition tune_kernels (o : KeyOrder) (ks : list (kern * kstate)) (store : chainstore) (e : econf)
+  : option (list (kern * kstate)) :=
+  if is_adaptation (e_type e) then
+    if existsb (fun p => needs_history (fst p)) ks then
+      match current_chain store with
+      | Some h => seq_tune o (is_slow (e_type e)) (Some h) ks
+      | None => None                      (* .expect("The history must contain samples.") *)
+      end
+    else seq_tune o (is_slow (e_type e)) None ks
+  else Some ks.
+
+(* one epoch: a new chain is opened for the epoch, the epoch's positions [h] are recorded in it,
+   then the kernels are tuned *)
+Definition engine_epoch (o : KeyOrder) (ks : list (kern * kstate)) (store : chainstore)
+           (e : econf) (h : history) : option (list (kern * kstate) * chainstore) :=
+  option_map (fun ks' => (ks', store ++ [(e, h)])) (tune_kernels o ks (store ++ [(e, h)]) e).
+
+Fixpoint engine_run (o : KeyOrder) (ks : list (kern * kstate)) (store : chainstore)
+         (eps : list (econf * history)) : option (list (kern * kstate) * chainstore) :=
+  match eps with
+  | [] => Some (ks, store)
+  | (e, h) :: r =>
+      match engine_epoch o ks store e h with
+      | None => None
+      | Some (ks', store') => engine_run o ks' store' r
+      end
+  end.
+End Sequence.
+
+(* what one kernel sees of a schedule: one tune call per adaptation epoch, with that epoch's chain *)
+Definition adapt_view (eps : list (econf * history)) : list (bool * option history) :=
+  map (fun eh => (is_slow (e_type (fst eh)), Some (snd eh)))
+      (filter (fun eh => is_adaptation (e_type (fst eh))) eps).
